@@ -352,6 +352,8 @@ func (env *Env) exactSelectionRule(a *flow.Alt, loopID string, allowed []pat.M, 
 				ok = true // loop bound test
 			case p.Op == flow.OpBin && (p.Name == "==" || p.Name == "!=") && (isStatusOfElem(p.Args[0]) && p.Args[1].Op == flow.OpConst || isStatusOfElem(p.Args[1]) && p.Args[0].Op == flow.OpConst):
 				ok = true // status compared with a constant (the verdict rule decides which)
+			case p.Op == flow.OpBin && p.Name == "!=" && (foundPointer(p.Args[0]) && p.Args[1].IsConst("nil") || foundPointer(p.Args[1]) && p.Args[0].IsConst("nil")):
+				ok = true // "the lookup found an element": &coll[i] or nil, tested against nil
 			}
 		}
 		if !ok {
@@ -445,4 +447,29 @@ func (env *Env) c04Reporting() {
 			r.Fail("C04/ERRFLOW", name, env.P.Pos(fn.Pos()), "SupportedTcbLevelsFromCollateral no longer calls "+name)
 		}
 	}
+}
+
+// foundPointer: the result of a lookup helper — the address of an element on
+// the found paths, nil otherwise.
+func foundPointer(t *flow.Term) bool {
+	t = flow.StripConv(t)
+	if t.Op != flow.OpPhi && t.Op != flow.OpIte {
+		return false
+	}
+	args := t.Args
+	if t.Op == flow.OpIte {
+		args = t.Args[1:]
+	}
+	hasAddr := false
+	for _, a := range args {
+		a = flow.StripConv(a)
+		switch {
+		case a.IsConst("nil"):
+		case a.Op == flow.OpAddr:
+			hasAddr = true
+		default:
+			return false
+		}
+	}
+	return hasAddr
 }
